@@ -797,7 +797,10 @@ impl Parser {
         let mut curly_mode = false;
         if let Some(lexem) = self.next_lexem() {
             if lexem != Lexem::Open && lexem != Lexem::CurlyOpen {
-                if is_boolean_function {
+                // no argument list: the token belongs to whatever follows the function
+                self.drop_lexem();
+
+                if is_boolean_function || function_expr.function.as_ref().is_some_and(|f| f.takes_no_arguments()) {
                     return Ok(function_expr);
                 }
 
